@@ -20,6 +20,7 @@ func init() {
 	register(&Prop{
 		ID: "C13",
 		Rule: "random osmChange documents (0..5 elements per create/modify/delete block, mixed kinds, few distinct ids so histories are shared) x histories (shuffled, gapped, duplicate versions, later versions, version 0, empty, absent, datasource error) x ignore-missing flag; " +
+			"the datasource hands out the history slice it holds (the same one for every lookup of an element); " +
 			"non-trivial = at least one modify/delete element; distinct = distinct op line",
 		Gen:   c13Gen,
 		Exec:  c13Exec,
